@@ -616,11 +616,13 @@ Inductive ev :=
 | VDrop                             (* the pool is dropped *)
 | VExit (t : nat)                   (* thread t finished *)
 | VDead (t : nat)                   (* t accessed a dead task block (harness liveness marker) *)
+| VWrongTask (t : nat)              (* a call on thread t ran with a state that is not the captured one *)
 | VBadVec                           (* the result vector is not "old elements ++ n+1 new slots within capacity" *)
 | VOther.                           (* an event the pool never produces *)
 
 (** Clauses. *)
-Definition F_once := 1.        (* an index executed 0 or 2 times, or on the wrong thread, or a foreign index *)
+Definition F_once := 1.        (* an index executed 0 or 2 times, or on the wrong thread, or a foreign index,
+                                  or what was executed was not THE task (captured state not the one seen) *)
 Definition F_results := 2.     (* result slots differ from "Some i unless call i panicked" *)
 Definition F_touch := 3.       (* a worker touched the task block after the caller may have resumed *)
 Definition F_exit := 4.        (* a worker did not exit after the pool was dropped *)
@@ -744,6 +746,7 @@ Definition mstep (pan : list (nat * nat)) (m : mon) (e : ev) : mon :=
          m_dropped := m_dropped m; m_rets := m_rets m;
          m_fail := (if m_dropped m then m_fail m else F_exit :: m_fail m) |}
   | VDead _ => failm m F_dead
+  | VWrongTask _ => failm m F_once
   | VBadVec => failm m F_results
   | VOther => failm m F_foreign
   end.
